@@ -2181,7 +2181,12 @@ argument `default_label_format` (e.g. 'x{}').
                 yield default_label_format.format(varid)
                 varid += 1
             if isinstance(vg, SingletonVariableGroup):
-                yield vg.name
+                if vg.name is None:
+                    # new_variable() without a label: the variable
+                    # gets the default name, as anonymous variables do
+                    yield default_label_format.format(varid)
+                else:
+                    yield vg.name
                 varid += 1
                 continue
             yield from vg.label()
